@@ -60,7 +60,11 @@ CHECKS = {
             'obtained completely, so R = P^T, P >= 0, partition of unity, '
             'P = reference interpolation hold for every field on these '
             'grids; coarse nodes, summed material parameters, additive '
-            'boundary-preserving prolongation are checked per case.',
+            'boundary-preserving prolongation are checked per case. A '
+            'second exploration applies restriction() over up to 3 levels '
+            'for all 4 anisotropy cases x mu_r x epsilon_r x 12 pattern '
+            'sequences and compares every coarse eta/zeta with the summed '
+            'children of a checker-side fine-level definition.',
             'Trusted: 40-line reference prolongation (linear in node '
             'coordinates). Shapes bounded.', '3/C04'),
     'C05': ('E1+E4', 'model_checking',
@@ -103,9 +107,12 @@ CHECKS = {
             'matrices J and T; matrix identities',
             'For every problem (4 anisotropy/mapping/source/receiver '
             'combinations) x gridding in {same, single, frequency, source, '
-            'both} x {memory, file_dir}: T = [Re J^T, Im J^T] decides '
-            'Re<w,Jv> = <J^T w,v> for ALL v, w; gridding same: J equals the '
-            'exact reference Jacobian; jtvec(weighted residual) = gradient.',
+            'both, input (same number of cells, other widths), dict (mixed '
+            'grids per source/frequency)} x {memory, file_dir}: T = [Re '
+            'J^T, Im J^T] decides Re<w,Jv> = <J^T w,v> for ALL v, w; '
+            'gridding same: J equals the exact reference Jacobian; '
+            'jtvec(weighted residual) = gradient; stored residual and '
+            'gradient unchanged after jtvec of arbitrary vectors.',
             'Model grid 4^3, computational grids 8^3; exact-solve mode '
             '(1e-8) plus real-solver subset (2e-6).', '3/C08'),
     'C06': ('E1', 'exploration',
@@ -114,7 +121,8 @@ CHECKS = {
             'measured reduction factors against calibrated bounds',
             'Stand-alone multigrid on uniform grids 8^3..32^3 (thorough: '
             '64^3, 128^3 and non-cubic shapes) for cycle F/V/W x isotropic / '
-            'triaxial x frequency / Laplace x (nu_pre, nu_post): rate(n) <= '
+            'triaxial (+ HTI, VTI 1:2) x frequency / Laplace x (nu_pre, '
+            'nu_post): rate(n) <= '
             '2.5 rate(16^3) + 0.05, rate <= 1.5 x pinned, cycles <= pinned '
             '+ 3, exit 0. A measurement against thresholds calibrated on the '
             'pinned tree (mc/checks/c06_table.json), not an invariant: '
@@ -195,7 +203,11 @@ CHECKS = {
             'add_noise variants, select subsets, copy, dict and h5/npz/json '
             'round trips, assignments) from three start states; after '
             'every step noise settings of the survey and of every original '
-            'it derives from equal the last assigned values.',
+            'it derives from equal the last assigned values. Histories on '
+            'a real Simulation (misfit, assignments of noise_floor / '
+            'relative_error / standard_deviation, clean x3; depth 3/4 + '
+            'closing probe): a misfit evaluated from scratch follows the '
+            'settings in force.',
             'Trusted: mc/refmodel/noise.py. Randomness seeded through '
             'numpy.random.default_rng.', '3/C13'),
     'C14': ('E1', 'model_checking',
@@ -218,7 +230,10 @@ CHECKS = {
             'direction + 1728 3-D products: F equals the exact overlap '
             'reference, rows convex, integral conserved, identity, equals '
             'discretize.volume_average, the adjoint routine equals F^T; log '
-            'mode consistency; Model.interpolate_to_grid across mappings.',
+            'mode consistency; Model.interpolate_to_grid across mappings; '
+            'gradient of a real Simulation with a user-given computational '
+            'grid (same shape / finer / coarser / equal) = F_ref^T x '
+            'gradient on that grid, summed over sources and frequencies.',
             'Trusted: mc/refmodel/volavg.py (two formulations '
             'cross-checked).', '3/C15'),
     'C16': ('E1', 'model_checking',
@@ -267,8 +282,9 @@ CHECKS = {
             'fresh perturbed simulations',
             '808 forward cases (6192 src-rec pairs) to 1e-10, NaN pattern, '
             'independence of method/ellipse, 72k extractions (imat >= 0, '
-            'sum 1, support), 91 gradient cases per z-cell slab (1e-6 in '
-            'conductivity).',
+            'sum 1, support; also on models whose properties change at '
+            'different interfaces, merged and unmerged), 91 gradient cases '
+            'per z-cell slab (1e-6 in conductivity).',
             'Trusted: empymod as the 1D reference modeller (per the '
             'property), own layering read-off.', '3/C19'),
     'C20': ('E1', 'model_checking',
